@@ -370,11 +370,16 @@ def run(tier):
         for w in wrappers:
             for p in by_combo[(w["kind"], w["retry"])]:
                 ints = [to_int(r) for r in p["raws"]]
-                if w.get("variant") and tag != "thorough":
-                    # argument-variant entries (enum values, flag constants, degenerate arguments): every
-                    # named errno, the basic successes and the boundary values; the full set in thorough
+                if w.get("variant"):
+                    # argument-variant entries (enum values, flag constants, aliased and degenerate
+                    # arguments): every named errno, the basic successes and the boundary values;
+                    # thorough: the whole quick answer set (the full range stays with the benign entries)
                     x = ints[-1]
-                    if len(ints) > 1 or not (-133 <= x <= -1 or x in (0, 1, 16, 4096) or abs(x) > 65535 or x in (-4095, -4096, -4097)):
+                    if tag != "thorough":
+                        keep = len(ints) == 1 and (-133 <= x <= -1 or x in (0, 1, 16, 4096) or abs(x) > 65535 or x in (-4095, -4096, -4097))
+                    else:
+                        keep = all(abs(y) <= 133 or 512 <= abs(y) <= 530 or 4094 <= abs(y) <= 4097 or abs(y) >= 65535 for y in ints)
+                    if not keep:
                         continue
                 # a non-error answer for a wrapper that checks what the kernel wrote: run the real call
                 last_ok = not (-4095 <= ints[-1] <= -1)
